@@ -141,6 +141,36 @@ fn universe(tier: Tier, v: &mut impl Visitor) {
     }
 }
 
+/// atan2 on the axes with a coordinate so small that its square underflows while its reciprocal is
+/// finite (1e-25 in single, 1e-170 in double precision), on the first-order scalar type: the reference
+/// algebra cannot form r^2 there, the exact values can be written down: d/dx atan2(y, 0) = -1/y,
+/// d/dy = 0; d/dy atan2(0, x) = 1/x, d/dx = 0
+macro_rules! tiny_axis {
+    ($st:expr, $f:ty, $d:ty, $t:expr, $name:literal) => {{
+        use num_dual::DualNum;
+        for s in [1.0 as $f, -1.0] {
+            let t: $f = s * $t;
+            let (a, b): ($f, $f) = (0.75, -1.25);
+            let cases: [(&str, $d, $f, $f); 2] = [
+                ("atan2(tiny, 0)", <$d>::new(t, a).atan2(<$d>::new(0.0, b)), t.atan2(0.0), -b / t),
+                ("atan2(0, tiny)", <$d>::new(0.0, a).atan2(<$d>::new(t, b)), (0.0 as $f).atan2(t), a / t),
+            ];
+            for (what, got, re, eps) in cases {
+                $st.evaluations += 1;
+                $st.state(hash64(&($name, what, t.to_bits())));
+                let ok = got.re == re && (got.eps - eps).abs() <= 8.0 * <$f>::EPSILON * eps.abs();
+                if !ok {
+                    $st.violation(Violation {
+                        sig: format!("atan2 {} tiny axis", $name),
+                        case: json!({"type": $name, "point": what, "tiny": t as f64}),
+                        what: format!("{what} with tiny = {t:e}: value {:e}, derivative part {:e}; expected {:e} and {:e}", got.re as f64, got.eps as f64, re as f64, eps as f64),
+                    });
+                }
+            }
+        }
+    }};
+}
+
 fn main() {
     quiet_panics();
     // history: the single-precision instances run first.  State shared between the float widths
@@ -166,6 +196,8 @@ fn main() {
     universe(tier, &mut e);
     copy64_types(tier, &mut e);
     let axes = std::mem::take(&mut e.axes);
+    tiny_axis!(stats, f32, num_dual::Dual32, 1e-25f32, "Dual<f32>");
+    tiny_axis!(stats, f64, num_dual::Dual64, 1e-170f64, "Dual<f64>");
     let rep = Report {
         property: PROP,
         mode: cli.mode,
